@@ -13,13 +13,13 @@ Import ListNotations.
 Open Scope Z_scope.
 
 Corollary rv_codegen_correct_heap p lc cs n lc' args fuel o :
-  switch_guard p = true -> XTC.entry_int p = true -> lin_check_prog p = true -> ann_check_prog p = true ->
+  XTC.entry_int p = true -> lin_check_prog p = true -> ann_check_prog p = true ->
   rv_compile p lc = Ok (cs, n, lc') -> asm_wf cs = None -> code_small cs = true ->
   Nat.leb (main_arity p) 14 = true -> heap_fits p args ->
   run_linear fuel p args = o -> XPg.good o ->
   exists outer inner, fst (run_rv outer inner cs args) = o.
 Proof.
-  intros FR EI LIN ANN XC WF SM CAP FIT RUN G.
+  intros EI LIN ANN XC WF SM CAP FIT RUN G.
   eapply rv_codegen_simulates_all; eauto; [|apply XPg.good_not_oof; exact G].
   unfold rv_compile in XC. destruct (prog_has_print p); [discriminate|].
   unfold compile in XC. unfold run_linear in RUN. destruct (pdefs p) as [|d0 rest] eqn:PD; [discriminate|].
@@ -32,7 +32,7 @@ Qed.
 (* the code generator applied to the output of the linearization pass *)
 Corollary rv_codegen_correct_linearized a lc cs n lc' args fuel o :
   prog_ok a = true ->
-  switch_guard (linearize a) = true -> XTC.entry_int (linearize a) = true ->
+  XTC.entry_int (linearize a) = true ->
   rv_compile (linearize a) lc = Ok (cs, n, lc') -> asm_wf cs = None -> code_small cs = true ->
   Nat.leb (main_arity (linearize a)) 14 = true -> heap_fits (linearize a) args ->
   run_linear fuel (linearize a) args = o -> XPg.good o ->
